@@ -27,7 +27,7 @@ C(id, subj, iss, key, signer, ca, nb, na) ==
 \* the universe: two roots, intermediates (one that is not a CA, one second-level), leaves
 Universe == {
     C("R",  "R",  "R",  "kR",  "kR",  TRUE,  0,  100),     \* trusted root
-    C("R2", "R2", "R2", "kR2", "kR2", TRUE,  0,  100),     \* another root (trusted or not)
+    C("R2", "R2", "R2", "kR2", "kR2", TRUE,  30, 70),      \* another root (trusted or not), staged late and retired early
     C("I",  "I",  "R",  "kI",  "kR",  TRUE,  10, 90),      \* intermediate CA under R
     C("In", "In", "R",  "kIn", "kR",  FALSE, 10, 90),      \* certificate under R that is not a CA
     C("I2", "I2", "I",  "kI2", "kI",  TRUE,  10, 90),      \* second-level intermediate under I
